@@ -1,0 +1,28 @@
+//go:build verif
+
+// Verification hooks (build tag verif) for property C07: lets an external harness replay one WAL file through the
+// real record reader (replayWalFile / replayPhysicRecord) and see what it delivers. No behaviour of its own.
+package engine
+
+import (
+	"context"
+
+	"github.com/openGemini/openGemini/lib/util/lifted/vm/protoparser/influx"
+)
+
+// VerifReplayWalFile runs the real replayWalFile on one file. fn receives, per delivered record, its type, the raw
+// payload (non line-protocol records), the unmarshalled rows (line-protocol records; only valid during the call) and
+// whether it is the end-of-last-file marker.
+func (l *WAL) VerifReplayWalFile(ctx context.Context, walFileName string, lastFile bool,
+	fn func(typ byte, binary []byte, rows []influx.Row, last bool)) error {
+	return l.replayWalFile(ctx, walFileName, lastFile, func(pc *walRecord) error {
+		var rows []influx.Row
+		last := false
+		if pc.rowsObjs != nil {
+			rows = pc.rowsObjs.rows
+			last = pc.rowsObjs.isLastRows
+		}
+		fn(byte(pc.writeWalType), pc.binary, rows, last)
+		return nil
+	})
+}
